@@ -276,8 +276,8 @@ PROPS["C09"] = dict(
     harness="api",
     leaks=True,
     level="exploration",
-    technique="stateful property-based testing: rapidcheck-generated API call histories in a 20-operation language, interpreted against one or two decoders created inside a forked child under ASan/UBSan with asserts on; a liveness-tracking interpreter, documented-return-value oracle, fixed follow-up utterance, and an explicit LeakSanitizer pass after the last reference is released",
-    level_text="Histories of 3-40 calls over decoder_set_jsgf_string / set_fsg / set_align_text (valid and must-refuse arguments), decoder_add_word, start_utt / process_int16 / process_float32 (0 to 70,000 samples, no_search and full_utt flags) / end_utt, hyp, prob, seg iterators (partly walked, abandoned), N-best with segmentations, lattice (walk, bestpath, posterior, retain past the utterance), alignment iterators over three levels, result JSON, timing and cmn accessors, lookup, reinit / reinit_feat, retain/free pairs, set_logfile(NULL), and freeing a decoder at any point including mid-utterance. 55% of histories follow the protocol; 45% may call anything in any state. Each call's return value is compared with the documented one where the documentation fixes it; after the history a fixed utterance must still align correctly; after every object is released __lsan_do_leak_check must find nothing.",
+    technique="stateful property-based testing: rapidcheck-generated API call histories in a 25-operation language, interpreted against one or two decoders created inside a forked child under ASan/UBSan with asserts on; a liveness-tracking interpreter, documented-return-value oracle, fixed follow-up utterance, and an explicit LeakSanitizer pass after the last reference is released",
+    level_text="Histories of 3-40 calls over decoder_set_jsgf_string / set_fsg / set_align_text (valid and must-refuse arguments), decoder_add_word, start_utt / process_int16 / process_float32 (0 to 70,000 samples, no_search and full_utt flags) / end_utt, hyp, prob, seg iterators (partly walked, abandoned), N-best with segmentations, lattice (walk, bestpath, posterior, retain past the utterance), alignment iterators over three levels, result JSON, timing and cmn accessors, lookup, reinit / reinit_feat, retain/free pairs, set_logfile(NULL), freeing a decoder at any point including mid-utterance; standalone configuration objects (config_set_str/int/float/bool with matching and mismatching types, unknown and empty keys, NULL values, typed getters, unset, parse_json of valid and invalid text, serialize_json which must read back, retain/free); decoder_reinit with a new configuration object (valid English or French model, missing model directory, missing or unreadable dictionary, invalid loglevel, grammars named in the configuration including one with an unknown word) after which a failed decoder may only be reinitialised or freed; alignments retained across utterances and reinitialisation; lattice forward and reverse edge traversal, posterior pruning with beams down to 0 followed by bestpath; decoder_set_jsgf_file on a valid file, a missing file, a non-JSGF file and a directory. 55% of histories follow the protocol; 45% may call anything in any state. Each call's return value is compared with the documented one where the documentation fixes it; after the history a fixed utterance must still align correctly; after every object is released __lsan_do_leak_check must find nothing.",
     level_note="Trusted: ASan/UBSan/LeakSanitizer, the fork runner's death classification, and the interpreter's own liveness bookkeeping (iterators are closed before calls that replace the result they walk). Object pointers are always valid (the property quantifies over valid pointers).",
     quick=dict(cases=480, maxlen=400, budget=120),
     thorough=dict(cases=16000, maxlen=600, budget=1800),
